@@ -736,6 +736,32 @@ theorem C18_live_single_call_keeps_request {s : LSt} {i : Bool} {a : Nat} (hslot
     MucLive.step s (.avail a) = some { s with upres := s.upres + 1 } := by
   simp [MucLive.step, hslot, hm, hne, refill, hno]
 
+/-- `Leave` returns nil only by taking a departure token, and there is at most one token per processed
+unavailable presence: in every reachable state of the leave model the calls that returned nil plus
+the token still in `depart` do not exceed the presences processed -/
+theorem C18_live_leave_tokens {s : LvSt} (hr : LvReach s) :
+    s.returned + (if s.token then 1 else 0) ≤ s.presences := by
+  induction hr with
+  | init => decide
+  | step _ hs ih =>
+    rename_i s0 s1 a _
+    cases a <;> simp only [lvStep] at hs
+    · simp at hs; subst hs; simpa using ih
+    · simp at hs; subst hs; simp; split at ih <;> omega
+    · split at hs <;> simp at hs
+      subst hs
+      rename_i h
+      simp [h.1] at ih
+      simp; omega
+
+/-- negation witness of "leaving returns when that unavailable presence arrives" for two waiting calls:
+after one presence one call returns, the other cannot (it waits for its context) — reproduced on the
+real code (`C18 liveoverlap leaves`, known finding) -/
+theorem C18_live_overlap_leave_one_token :
+    ∃ s, lvRun lvInit [.leaveStart, .leaveStart, .unavail, .leaveReturn] = some s ∧ s.waiting = 1 ∧
+      s.joined = false ∧ lvStep s .leaveReturn = none := by
+  refine ⟨_, rfl, ?_, ?_, ?_⟩ <;> decide
+
 end Live
 
 /-! ### a presence whose muc#user payload stands twice (round F)
